@@ -93,7 +93,7 @@ Section OpsProofs.
     match ty with
     | TReal lb ub => xleb lb ub = true
     | TBinary _ => True
-    | TPerm els => NoDup els
+    | TPerm els => NoDup els /\ (0 < length els)%nat      (* Permutation([]) makes randrange(0) raise: rejected *)
     | TSubset els k => NoDup els /\ (0 < k)%nat
     end.
 
@@ -160,7 +160,7 @@ Section OpsProofs.
     destruct (mut_loop E step ts (vars p) t) as [[[vs w] t1]|] eqn:El; simpl in H; [|discriminate].
     inversion H; subst; clear H.
     destruct (mut_loop_valid step ts SV _ _ _ _ _ WF V El) as [V' F'].
-    repeat split; auto. now apply copied_from_mk_child.
+    split; [exact V'|]. split; [now apply copied_from_mk_child|]. split; reflexivity.
   Qed.
 
   Theorem mutation_of_safe step ts : step_safe step ->
@@ -192,8 +192,9 @@ Section OpsProofs.
       destruct (IH _ _ _ _ _ _ _ Wts Har Hbr El) as (A & B & F).
       destruct o as [[a' b']|].
       + destruct (SV _ _ _ _ _ _ _ Wty Ha Hb Es) as [Va Vb].
-        repeat split; try constructor; auto; discriminate.
-      + repeat split; try constructor; auto; simpl; intro W; destruct (F W); congruence.
+        split; [constructor; auto|]. split; [constructor; auto|]. simpl. discriminate.
+      + split; [constructor; auto|]. split; [constructor; auto|]. simpl.
+        intro W; destruct (F W); split; congruence.
   Qed.
 
   Lemma cross_loop_safe step ts : xstep_safe step ->
@@ -214,6 +215,26 @@ Section OpsProofs.
                   copied_from c1 p1 /\ copied_from c2 p2 /\
                   sid c1 = fresh /\ sid c2 = S fresh /\ f = S (S fresh).
 
+  Lemma two_children_intro ts fresh p1 p2 r1 r2 w :
+    valid_vars ts r1 -> valid_vars ts r2 -> (w = false -> r1 = vars p1 /\ r2 = vars p2) ->
+    two_children_ok ts fresh p1 p2 [mk_child E P fresh p1 r1 w; mk_child E P (S fresh) p2 r2 w] (S (S fresh)).
+  Proof.
+    intros A B F. exists (mk_child E P fresh p1 r1 w), (mk_child E P (S fresh) p2 r2 w).
+    split; [reflexivity|]. split; [exact A|]. split; [exact B|].
+    split; [apply copied_from_mk_child; intro W; now destruct (F W)|].
+    split; [apply copied_from_mk_child; intro W; now destruct (F W)|].
+    repeat split.
+  Qed.
+
+  Lemma two_children_deepcopy ts fresh p1 p2 :
+    valid_sol ts p1 -> valid_sol ts p2 ->
+    two_children_ok ts fresh p1 p2 [deepcopy E P fresh p1; deepcopy E P (S fresh) p2] (S (S fresh)).
+  Proof.
+    intros A B. exists (deepcopy E P fresh p1), (deepcopy E P (S fresh) p2).
+    split; [reflexivity|]. split; [exact A|]. split; [exact B|].
+    split; [apply copied_from_deepcopy|]. split; [apply copied_from_deepcopy|]. repeat split.
+  Qed.
+
   Theorem crossover_of_valid step ts : xstep_valid step ->
     forall fresh p1 p2 t cs f t', Forall wf_type ts -> valid_sol ts p1 -> valid_sol ts p2 ->
     crossover_of E P step ts fresh [p1; p2] t = Ok (cs, f, t') ->
@@ -223,8 +244,7 @@ Section OpsProofs.
     destruct (cross_loop E step ts (vars p1) (vars p2) t) as [[[[r1 r2] w] t1]|] eqn:El; simpl in H; [|discriminate].
     inversion H; subst; clear H.
     destruct (cross_loop_valid step ts SV _ _ _ _ _ _ _ WF V1 V2 El) as (A & B & F).
-    eexists _, _. repeat split; try reflexivity; auto;
-      apply copied_from_mk_child; intro W; now destruct (F W).
+    now apply two_children_intro.
   Qed.
 
   Theorem crossover_of_safe step ts : xstep_safe step ->
@@ -246,10 +266,8 @@ Section OpsProofs.
     - destruct (cross_loop E step ts (vars p1) (vars p2) t0) as [[[[r1 r2] w] t1]|] eqn:El; simpl in H; [|discriminate].
       inversion H; subst; clear H.
       destruct (cross_loop_valid step ts SV _ _ _ _ _ _ _ WF V1 V2 El) as (A & B & F).
-      eexists _, _. repeat split; try reflexivity; auto;
-        apply copied_from_mk_child; intro W; now destruct (F W).
-    - inversion H; subst; clear H.
-      eexists _, _. repeat split; try reflexivity; auto using copied_from_deepcopy.
+      now apply two_children_intro.
+    - inversion H; subst; clear H. now apply two_children_deepcopy.
   Qed.
 
   Theorem guarded_crossover_of_safe pr step ts : xstep_safe step ->
@@ -270,8 +288,8 @@ Section OpsProofs.
     - inversion H; subst. auto.
     - destruct bits as [|b r]; [discriminate|].
       destruct (get_unif t) as [[u t1]|]; simpl in H; [|discriminate].
-      destruct (bitflip_bits p n r t1) as [[[r' w'] t2]|] eqn:E; simpl in H; [|discriminate].
-      destruct (IH _ _ _ _ _ E) as [L F].
+      destruct (bitflip_bits p n r t1) as [[[r' w'] t2]|] eqn:Er; simpl in H; [|discriminate].
+      destruct (IH _ _ _ _ _ Er) as [L F].
       destruct (xleb u p); inversion H; subst; simpl; split; auto; try discriminate.
       intro W. now rewrite (F W).
   Qed.
@@ -334,11 +352,12 @@ Section OpsProofs.
       + destruct (get_bit t) as [[c t1]|]; simpl in H; [|discriminate].
         destruct (hux_bits n s1 s2 t1) as [[[[q1 q2] w'] t2]|] eqn:El; simpl in H; [|discriminate].
         destruct (IH _ _ _ _ _ _ _ El) as (L1 & L2 & F).
-        destruct c; inversion H; subst; simpl; repeat split; auto; try discriminate;
-          intro W; destruct (F W); congruence.
+        destruct c; inversion H; subst; simpl; (split; [congruence|]); (split; [congruence|]);
+          try discriminate. intro W; destruct (F W); split; congruence.
       + destruct (hux_bits n s1 s2 t) as [[[[q1 q2] w'] t2]|] eqn:El; simpl in H; [|discriminate].
         destruct (IH _ _ _ _ _ _ _ El) as (L1 & L2 & F).
-        inversion H; subst; simpl; repeat split; auto; intro W; destruct (F W); congruence.
+        inversion H; subst; simpl; (split; [congruence|]); (split; [congruence|]).
+        intro W; destruct (F W); split; congruence.
   Qed.
 
   Lemma hux_bits_safe : forall n b1 b2 t, (n <= length b1)%nat -> (n <= length b2)%nat -> py_safe (hux_bits n b1 b2 t).
@@ -377,4 +396,762 @@ Section OpsProofs.
   Theorem hux_safe pr ts fresh p1 p2 t :
     Forall wf_type ts -> valid_sol ts p1 -> valid_sol ts p2 -> py_safe (hux E P pr ts fresh [p1; p2] t).
   Proof. intros. apply guarded_crossover_of_safe; auto using hux_step_safe. Qed.
+
+  (* ================================================================ two distinct indices *)
+  Lemma redraw_spec n i : forall fuel j t j' t',
+    (j < n)%nat -> redraw fuel n i j t = Ok (j', t') -> (j' < n)%nat /\ j' <> i.
+  Proof.
+    induction fuel as [|f IH]; intros j t j' t' L H; simpl in H.
+    - destruct (Nat.eqb i j) eqn:Eij; [discriminate|]. inversion H; subst.
+      apply Nat.eqb_neq in Eij. auto.
+    - destruct (Nat.eqb i j) eqn:Eij.
+      + destruct (get_idx n t) as [[j1 t1]|] eqn:Eg; simpl in H; [|discriminate].
+        apply get_idx_ok in Eg. destruct Eg as [L1 _]. eapply IH; eauto.
+      + inversion H; subst. apply Nat.eqb_neq in Eij. auto.
+  Qed.
+
+  (* the loop consumes draws equal to i until one differs *)
+  Lemma redraw_consumes n i : forall fuel j t j' t',
+    redraw fuel n i j t = Ok (j', t') ->
+    j' <> i /\ ((j = j' /\ t = t') \/ (j = i /\ exists m, t = repeat (DIdx i) m ++ DIdx j' :: t')).
+  Proof.
+    induction fuel as [|f IH]; intros j t j' t' H; simpl in H.
+    - destruct (Nat.eqb i j) eqn:Eij; [discriminate|]. inversion H; subst.
+      apply Nat.eqb_neq in Eij. split; auto.
+    - destruct (Nat.eqb i j) eqn:Eij.
+      + apply Nat.eqb_eq in Eij. subst j.
+        destruct (get_idx n t) as [[j1 t1]|] eqn:Eg; simpl in H; [|discriminate].
+        apply get_idx_ok in Eg. destruct Eg as [_ ->].
+        destruct (IH _ _ _ _ H) as [N [[A B]|[A [m B]]]].
+        * subst. split; auto. right. split; auto. exists 0%nat. reflexivity.
+        * subst. split; auto. right. split; auto. exists (S m). reflexivity.
+      + inversion H; subst. apply Nat.eqb_neq in Eij. split; auto.
+  Qed.
+
+  (* with fuel above the tape length the loop never runs out of fuel *)
+  Lemma redraw_safe n i : (0 < n)%nat -> forall fuel j t, (length t < fuel)%nat -> py_safe (redraw fuel n i j t).
+  Proof.
+    intros Hn. induction fuel as [|f IH]; intros j t L; [lia|]. simpl.
+    destruct (Nat.eqb i j); [|exact I].
+    apply py_safe_bind; [now apply get_idx_safe|].
+    intros [j1 t1] Eg. apply get_idx_ok in Eg. destruct Eg as [_ ->]. apply IH. simpl in L. lia.
+  Qed.
+
+  Lemma draw_two_spec n t i j t' :
+    draw_two n t = Ok (i, j, t') -> (i < n)%nat /\ (j < n)%nat /\ ((1 < n)%nat -> i <> j).
+  Proof.
+    unfold draw_two. intro H.
+    destruct (get_idx n t) as [[i0 t1]|] eqn:E1; cbn [bind] in H; [|discriminate].
+    destruct (get_idx n t1) as [[j0 t2]|] eqn:E2; cbn [bind] in H; [|discriminate].
+    apply get_idx_ok in E1. apply get_idx_ok in E2. destruct E1 as [L1 _], E2 as [L2 _].
+    destruct (Nat.ltb 1 n) eqn:E1n.
+    - destruct (redraw (S (length t2)) n i0 j0 t2) as [[j1 t3]|] eqn:Er; cbn [bind] in H; [|discriminate].
+      inversion H; subst. destruct (redraw_spec _ _ _ _ _ _ _ L2 Er) as [A B]. repeat split; auto.
+    - inversion H; subst. repeat split; auto. intro C. apply Nat.ltb_lt in C. congruence.
+  Qed.
+
+  Lemma draw_two_safe n t : (0 < n)%nat -> py_safe (draw_two n t).
+  Proof.
+    intro Hn. unfold draw_two.
+    apply py_safe_bind; [now apply get_idx_safe|]. intros [i0 t1] _.
+    apply py_safe_bind; [now apply get_idx_safe|]. intros [j0 t2] _.
+    destruct (Nat.ltb 1 n); [|exact I].
+    apply py_safe_bind; [apply redraw_safe; auto|]. intros [j1 t3] _. exact I.
+  Qed.
+
+  (* ================================================================ Swap *)
+  Lemma swap_upd_perm : forall (l : list E) i j x y,
+    nth_error l i = Some x -> nth_error l j = Some y -> Permutation (upd j x (upd i y l)) l.
+  Proof.
+    induction l as [|a l IH]; intros [|i] [|j] x y Hi Hj; simpl in *; try discriminate.
+    - inversion Hi; inversion Hj; subst. reflexivity.
+    - inversion Hi; subst. apply (upd_perm j x y l Hj).
+    - inversion Hj; subst. apply (upd_perm i y x l Hi).
+    - apply perm_skip. now apply IH.
+  Qed.
+
+  Lemma swap_step_valid p : step_valid (swap_step E p).
+  Proof.
+    intros ty v t v' t1 W V H. destruct ty as [| |els|]; simpl in H; try (inversion H; fail).
+    destruct (get_unif t) as [[u t0]|]; simpl in H; [|discriminate].
+    destruct (xleb u p); [|inversion H].
+    destruct v as [| |perm|]; simpl in V; try contradiction.
+    destruct (draw_two (length perm) t0) as [[[i j] t2]|]; simpl in H; [|discriminate].
+    destruct (nth_res perm i) as [x|] eqn:Ei; simpl in H; [|discriminate].
+    destruct (nth_res perm j) as [y|] eqn:Ej; simpl in H; [|discriminate].
+    inversion H; subst. simpl. apply nth_res_ok in Ei. apply nth_res_ok in Ej.
+    eapply perm_trans; [exact V|]. symmetry. now apply swap_upd_perm.
+  Qed.
+
+  Lemma swap_step_safe p : step_safe (swap_step E p).
+  Proof.
+    intros ty v t W V. destruct ty as [| |els|]; simpl; try exact I.
+    apply py_safe_bind; [apply get_unif_safe|]. intros [u t0] _.
+    destruct (xleb u p); [|exact I].
+    destruct v as [| |perm|]; simpl in V; try contradiction.
+    destruct W as [_ Wl]. apply Permutation_length in V.
+    apply py_safe_bind; [apply draw_two_safe; lia|]. intros [[i j] t2] Ed.
+    apply draw_two_spec in Ed. destruct Ed as (Li & Lj & _).
+    destruct (nth_res_lt perm i Li) as [x ->]. destruct (nth_res_lt perm j Lj) as [y ->]. exact I.
+  Qed.
+
+  (* Swap: the offspring permutation is a permutation of the declared elements *)
+  Theorem swap_valid p ts fresh s t c f t' :
+    Forall wf_type ts -> valid_sol ts s -> swap E P p ts fresh s t = Ok (c, f, t') ->
+    valid_sol ts c /\ copied_from c s /\ sid c = fresh /\ f = S fresh.
+  Proof. intros. eapply mutation_of_valid; eauto using swap_step_valid. Qed.
+
+  Theorem swap_safe p ts fresh s t :
+    Forall wf_type ts -> valid_sol ts s -> py_safe (swap E P p ts fresh s t).
+  Proof. intros. apply mutation_of_safe; auto using swap_step_safe. Qed.
+
+  (* ================================================================ Insertion *)
+  (* loop invariant: the list holds every element of l0 except that position h holds a stale
+     copy (z) while tmp is held aside *)
+  Definition hole (l0 : list E) (tmp : E) (h : nat) (lk : list E) : Prop :=
+    length lk = length l0 /\ exists z, nth_error lk h = Some z /\ Permutation (tmp :: lk) (z :: l0).
+
+  Lemma hole_init l i tmp : nth_error l i = Some tmp -> hole l tmp i l.
+  Proof. intro H. split; auto. exists tmp. split; auto. Qed.
+
+  Lemma hole_step l0 tmp h h' lk a :
+    hole l0 tmp h lk -> h <> h' -> nth_error lk h' = Some a -> hole l0 tmp h' (upd h a lk).
+  Proof.
+    intros [L (z & Hz & Pz)] N Ha. split; [now rewrite upd_length|].
+    exists a. split; [now rewrite nth_error_upd_neq|].
+    pose proof (upd_perm h a z lk Hz) as Q.
+    apply (Permutation_cons_inv (a := z)).
+    eapply perm_trans; [apply perm_swap|].
+    eapply perm_trans; [apply perm_skip, Q|].
+    eapply perm_trans; [apply perm_swap|].
+    eapply perm_trans; [apply perm_skip, Pz|]. apply perm_swap.
+  Qed.
+
+  Lemma hole_final l0 tmp h lk : hole l0 tmp h lk -> Permutation (upd h tmp lk) l0.
+  Proof.
+    intros [L (z & Hz & Pz)]. pose proof (upd_perm h tmp z lk Hz) as Q.
+    apply (Permutation_cons_inv (a := z)). eapply perm_trans; eauto.
+  Qed.
+
+  Lemma shift_down_ok l0 tmp : forall cnt l h,
+    hole l0 tmp h l -> (h + cnt < length l0)%nat ->
+    exists l', shift_down E l (S h) cnt = Ok l' /\ hole l0 tmp (h + cnt) l'.
+  Proof.
+    induction cnt as [|c IH]; intros l h Hh L; cbn [shift_down].
+    - exists l. split; auto. now rewrite Nat.add_0_r.
+    - destruct Hh as [Ll Hz].
+      assert (Lk : (S h < length l)%nat) by lia.
+      destruct (nth_res_lt l (S h) Lk) as [x Ex]. rewrite Ex. cbn [bind].
+      replace (S h - 1)%nat with h by lia.
+      apply nth_res_ok in Ex.
+      assert (H2 : hole l0 tmp (S h) (upd h x l)) by (apply hole_step; auto; split; auto).
+      destruct (IH _ _ H2) as (l' & El & Hl'); [lia|].
+      exists l'. split; [exact El|].
+      replace (S h + c)%nat with (h + S c)%nat in Hl' by lia. exact Hl'.
+  Qed.
+
+  Lemma shift_up_ok l0 tmp : forall cnt l h,
+    hole l0 tmp h l -> (cnt <= h)%nat -> (h < length l0)%nat ->
+    exists l', shift_up E l (h - 1) cnt = Ok l' /\ hole l0 tmp (h - cnt) l'.
+  Proof.
+    induction cnt as [|c IH]; intros l h Hh C L; cbn [shift_up].
+    - exists l. split; auto. now rewrite Nat.sub_0_r.
+    - destruct Hh as [Ll Hz].
+      assert (Lk : (h - 1 < length l)%nat) by lia.
+      destruct (nth_res_lt l (h - 1) Lk) as [x Ex]. rewrite Ex. cbn [bind].
+      apply nth_res_ok in Ex.
+      replace (S (h - 1)) with h by lia.
+      assert (H2 : hole l0 tmp (h - 1) (upd h x l)) by (apply hole_step; auto; [split; auto|lia]).
+      destruct (IH _ _ H2) as (l' & El & Hl'); [lia|lia|].
+      exists l'. split; [exact El|].
+      replace (h - 1 - c)%nat with (h - S c)%nat in Hl' by lia. exact Hl'.
+  Qed.
+
+  Lemma insert_at_ok perm i j : (i < length perm)%nat -> (j < length perm)%nat ->
+    exists l, insert_at E perm i j = Ok l /\ Permutation l perm.
+  Proof.
+    intros Li Lj. unfold insert_at.
+    destruct (nth_res_lt perm i Li) as [tmp Et]. rewrite Et. simpl. apply nth_res_ok in Et.
+    pose proof (hole_init perm i tmp Et) as H0.
+    destruct (Nat.ltb i j) eqn:Eij; [|destruct (Nat.ltb j i) eqn:Eji].
+    - apply Nat.ltb_lt in Eij.
+      destruct (shift_down_ok perm tmp (j - i) perm i H0) as (l' & El & Hl); [lia|].
+      rewrite El. simpl. eexists. split; [reflexivity|].
+      replace (i + (j - i))%nat with j in Hl by lia. now apply hole_final in Hl.
+    - apply Nat.ltb_lt in Eji.
+      destruct (shift_up_ok perm tmp (i - j) perm i H0) as (l' & El & Hl); [lia|lia|].
+      rewrite El. simpl. eexists. split; [reflexivity|].
+      replace (i - (i - j))%nat with j in Hl by lia. now apply hole_final in Hl.
+    - apply Nat.ltb_ge in Eij. apply Nat.ltb_ge in Eji. assert (i = j) by lia. subst j.
+      simpl. eexists. split; [reflexivity|]. now apply hole_final in H0.
+  Qed.
+
+  Lemma insertion_step_valid p : step_valid (insertion_step E p).
+  Proof.
+    intros ty v t v' t1 W V H. destruct ty as [| |els|]; simpl in H; try (inversion H; fail).
+    destruct (get_unif t) as [[u t0]|]; simpl in H; [|discriminate].
+    destruct (xleb u p); [|inversion H].
+    destruct v as [| |perm|]; simpl in V; try contradiction.
+    destruct (draw_two (length perm) t0) as [[[i j] t2]|] eqn:Ed; cbn [bind] in H; [|discriminate].
+    apply draw_two_spec in Ed. destruct Ed as (Li & Lj & _).
+    destruct (insert_at_ok perm i j Li Lj) as (l & El & Pl). rewrite El in H. simpl in H.
+    inversion H; subst. simpl. eapply perm_trans; [exact V|]. now symmetry.
+  Qed.
+
+  Lemma insertion_step_safe p : step_safe (insertion_step E p).
+  Proof.
+    intros ty v t W V. destruct ty as [| |els|]; simpl; try exact I.
+    apply py_safe_bind; [apply get_unif_safe|]. intros [u t0] _.
+    destruct (xleb u p); [|exact I].
+    destruct v as [| |perm|]; simpl in V; try contradiction.
+    destruct W as [_ Wl]. apply Permutation_length in V.
+    apply py_safe_bind; [apply draw_two_safe; lia|]. intros [[i j] t2] Ed.
+    apply draw_two_spec in Ed. destruct Ed as (Li & Lj & _).
+    destruct (insert_at_ok perm i j Li Lj) as (l & -> & _). exact I.
+  Qed.
+
+  (* Insertion (both shift directions): a permutation of the declared elements *)
+  Theorem insertion_valid p ts fresh s t c f t' :
+    Forall wf_type ts -> valid_sol ts s -> insertion E P p ts fresh s t = Ok (c, f, t') ->
+    valid_sol ts c /\ copied_from c s /\ sid c = fresh /\ f = S fresh.
+  Proof. intros. eapply mutation_of_valid; eauto using insertion_step_valid. Qed.
+
+  Theorem insertion_safe p ts fresh s t :
+    Forall wf_type ts -> valid_sol ts s -> py_safe (insertion E P p ts fresh s t).
+  Proof. intros. apply mutation_of_safe; auto using insertion_step_safe. Qed.
+
+  (* ================================================================ Replace *)
+  Lemma NoDup_upd : forall (l : list E) i x, NoDup l -> ~ In x l -> NoDup (upd i x l).
+  Proof.
+    induction l as [|y r IH]; intros [|i] x ND NI; simpl; auto.
+    - inversion ND; subst. constructor; auto. intro C. apply NI. now right.
+    - inversion ND; subst. constructor.
+      + intro C. apply upd_In in C. destruct C as [->|C]; [apply NI; now left|contradiction].
+      + apply IH; auto. intro C. apply NI. now right.
+  Qed.
+
+  Lemma nonmembers_spec els s x : In x (nonmembers E eqb els s) <-> In x els /\ ~ In x s.
+  Proof.
+    unfold nonmembers. rewrite filter_In, negb_true_iff, mem_false. tauto.
+  Qed.
+
+  (* fewer members than declared elements => some declared element is a non-member *)
+  Lemma nonmembers_nonempty els s : NoDup els -> (length s < length els)%nat ->
+    (0 < length (nonmembers E eqb els s))%nat.
+  Proof.
+    intros ND L. destruct (nonmembers E eqb els s) as [|e r] eqn:En; [|simpl; lia].
+    exfalso. assert (I : incl els s).
+    { intros e He. destruct (mem e s) eqn:Em; [now apply mem_In|].
+      assert (In e (nonmembers E eqb els s)) by (apply nonmembers_spec; split; auto; now apply mem_false).
+      rewrite En in H. contradiction. }
+    pose proof (NoDup_incl_length ND I). lia.
+  Qed.
+
+  Lemma replace_step_valid p : step_valid (replace_step E eqb p).
+  Proof.
+    intros ty v t v' t1 W V H. destruct ty as [| | |els k]; simpl in H; try (inversion H; fail).
+    destruct (get_unif t) as [[u t0]|]; simpl in H; [|discriminate].
+    destruct (xleb u p); [|inversion H].
+    destruct v as [| | |s]; simpl in V; try contradiction. destruct V as (ND & Ls & Inc).
+    destruct (Nat.ltb (length s) (length els)); [|inversion H].
+    destruct (get_idx (length s) t0) as [[i t2]|]; simpl in H; [|discriminate].
+    destruct (get_idx (length (nonmembers E eqb els s)) t2) as [[j t3]|]; simpl in H; [|discriminate].
+    destruct (nth_res (nonmembers E eqb els s) j) as [x|] eqn:Ex; simpl in H; [|discriminate].
+    inversion H; subst. apply nth_res_ok in Ex. apply nth_error_In in Ex.
+    apply nonmembers_spec in Ex. destruct Ex as [Xe Xs]. simpl. split; [|split].
+    - now apply NoDup_upd.
+    - apply upd_length.
+    - intros z Hz. apply upd_In in Hz. destruct Hz as [->|Hz]; auto.
+  Qed.
+
+  Lemma replace_step_safe p : step_safe (replace_step E eqb p).
+  Proof.
+    intros ty v t W V. destruct ty as [| | |els k]; simpl; try exact I.
+    apply py_safe_bind; [apply get_unif_safe|]. intros [u t0] _.
+    destruct (xleb u p); [|exact I].
+    destruct v as [| | |s]; simpl in V; try contradiction. destruct V as (ND & Ls & Inc).
+    destruct W as [NDe Kpos].
+    destruct (Nat.ltb (length s) (length els)) eqn:El; [|exact I]. apply Nat.ltb_lt in El.
+    apply py_safe_bind; [apply get_idx_safe; lia|]. intros [i t2] _.
+    apply py_safe_bind; [apply get_idx_safe; now apply nonmembers_nonempty|]. intros [j t3] Ej.
+    apply get_idx_ok in Ej. destruct Ej as [Lj _].
+    destruct (nth_res_lt _ j Lj) as [x ->]. exact I.
+  Qed.
+
+  (* Replace: duplicate-free, of the declared size, drawn from the declared elements *)
+  Theorem replace_valid p ts fresh s t c f t' :
+    Forall wf_type ts -> valid_sol ts s -> replace E P eqb p ts fresh s t = Ok (c, f, t') ->
+    valid_sol ts c /\ copied_from c s /\ sid c = fresh /\ f = S fresh.
+  Proof. intros. eapply mutation_of_valid; eauto using replace_step_valid. Qed.
+
+  Theorem replace_safe p ts fresh s t :
+    Forall wf_type ts -> valid_sol ts s -> py_safe (replace E P eqb p ts fresh s t).
+  Proof. intros. apply mutation_of_safe; auto using replace_step_safe. Qed.
+
+  (* ================================================================ SSX *)
+  Lemma ssx_loop_spec s1 s2 : forall size l1 l2 t r1 r2 t',
+    ssx_loop E eqb s1 s2 size l1 l2 t = Ok (r1, r2, t') ->
+    length r1 = length l1 /\ length r2 = length l2 /\
+    (forall x, In x r1 -> In x l1 \/ (In x l2 /\ ~ In x s1)) /\
+    (forall x, In x r2 -> In x l2 \/ (In x l1 /\ ~ In x s2)) /\
+    (incl l1 s1 -> NoDup l1 -> NoDup l2 -> NoDup r1) /\
+    (incl l2 s2 -> NoDup l1 -> NoDup l2 -> NoDup r2).
+  Proof.
+    induction size as [|k IH]; intros l1 l2 t r1 r2 t' H; simpl in H.
+    - inversion H; subst. repeat split; auto.
+    - destruct l1 as [|a q1]; [discriminate|]. destruct l2 as [|b q2]; [discriminate|].
+      destruct (negb (mem b s1) && negb (mem a s2)) eqn:Ec.
+      + apply andb_true_iff in Ec. destruct Ec as [Eb Ea].
+        rewrite negb_true_iff, mem_false in Eb, Ea.
+        destruct (get_unif t) as [[u t0]|]; simpl in H; [|discriminate].
+        destruct (ssx_loop E eqb s1 s2 k q1 q2 t0) as [[[x1 x2] t2]|] eqn:El; simpl in H; [|discriminate].
+        destruct (IH _ _ _ _ _ _ El) as (L1 & L2 & I1 & I2 & N1 & N2).
+        inversion H; subst; clear H. simpl.
+        split; [congruence|]. split; [congruence|].
+        destruct (xltb u half).
+        * split; [|split; [|split]].
+          -- intros x [<-|Hx]; [right; split; auto; now left|].
+             destruct (I1 _ Hx) as [?|[? ?]]; [left; now right|right; split; auto; now right].
+          -- intros x [<-|Hx]; [right; split; auto; now left|].
+             destruct (I2 _ Hx) as [?|[? ?]]; [left; now right|right; split; auto; now right].
+          -- intros Inc ND1 ND2. inversion ND1; inversion ND2; subst.
+             constructor; [|apply N1; auto; intros z Hz; apply Inc; now right].
+             intro C. destruct (I1 _ C) as [C1|[C1 _]]; [|contradiction].
+             apply Eb, Inc. now right.
+          -- intros Inc ND1 ND2. inversion ND1; inversion ND2; subst.
+             constructor; [|apply N2; auto; intros z Hz; apply Inc; now right].
+             intro C. destruct (I2 _ C) as [C1|[C1 _]]; [|contradiction].
+             apply Ea, Inc. now right.
+        * split; [|split; [|split]].
+          -- intros x [<-|Hx]; [left; now left|].
+             destruct (I1 _ Hx) as [?|[? ?]]; [left; now right|right; split; auto; now right].
+          -- intros x [<-|Hx]; [left; now left|].
+             destruct (I2 _ Hx) as [?|[? ?]]; [left; now right|right; split; auto; now right].
+          -- intros Inc ND1 ND2. inversion ND1; inversion ND2; subst.
+             constructor; [|apply N1; auto; intros z Hz; apply Inc; now right].
+             intro C. destruct (I1 _ C) as [C1|[_ C1]]; [contradiction|].
+             apply C1, Inc. now left.
+          -- intros Inc ND1 ND2. inversion ND1; inversion ND2; subst.
+             constructor; [|apply N2; auto; intros z Hz; apply Inc; now right].
+             intro C. destruct (I2 _ C) as [C1|[_ C1]]; [contradiction|].
+             apply C1, Inc. now left.
+      + simpl in H.
+        destruct (ssx_loop E eqb s1 s2 k q1 q2 t) as [[[x1 x2] t2]|] eqn:El; simpl in H; [|discriminate].
+        destruct (IH _ _ _ _ _ _ El) as (L1 & L2 & I1 & I2 & N1 & N2).
+        inversion H; subst; clear H. simpl.
+        split; [congruence|]. split; [congruence|].
+        split; [|split; [|split]].
+        * intros x [<-|Hx]; [left; now left|].
+          destruct (I1 _ Hx) as [?|[? ?]]; [left; now right|right; split; auto; now right].
+        * intros x [<-|Hx]; [left; now left|].
+          destruct (I2 _ Hx) as [?|[? ?]]; [left; now right|right; split; auto; now right].
+        * intros Inc ND1 ND2. inversion ND1; inversion ND2; subst.
+          constructor; [|apply N1; auto; intros z Hz; apply Inc; now right].
+          intro C. destruct (I1 _ C) as [C1|[_ C1]]; [contradiction|].
+          apply C1, Inc. now left.
+        * intros Inc ND1 ND2. inversion ND1; inversion ND2; subst.
+          constructor; [|apply N2; auto; intros z Hz; apply Inc; now right].
+          intro C. destruct (I2 _ C) as [C1|[_ C1]]; [contradiction|].
+          apply C1, Inc. now left.
+  Qed.
+
+  Lemma ssx_loop_safe s1 s2 : forall size l1 l2 t, (size <= length l1)%nat -> (size <= length l2)%nat ->
+    py_safe (ssx_loop E eqb s1 s2 size l1 l2 t).
+  Proof.
+    induction size as [|k IH]; intros l1 l2 t L1 L2; simpl; [exact I|].
+    destruct l1 as [|a q1]; simpl in L1; [lia|]. destruct l2 as [|b q2]; simpl in L2; [lia|].
+    apply py_safe_bind.
+    - destruct (negb (mem b s1) && negb (mem a s2)); [|exact I].
+      apply py_safe_bind; [apply get_unif_safe|]. intros [u t0] _. exact I.
+    - intros [sw t1] _. apply py_safe_bind; [apply IH; lia|]. intros [[x1 x2] t2] _. exact I.
+  Qed.
+
+  Lemma ssx_step_valid p : xstep_valid (ssx_step E eqb p).
+  Proof.
+    intros ty a b t a' b' t1 W Va Vb H. destruct ty as [| | |els k]; simpl in H; try (inversion H; fail).
+    destruct (get_unif t) as [[u t0]|]; simpl in H; [|discriminate].
+    destruct (xleb u p); [|inversion H].
+    destruct a as [| | |sa]; simpl in Va; try contradiction.
+    destruct b as [| | |sb]; simpl in Vb; try contradiction.
+    destruct Va as (NDa & La & Ia). destruct Vb as (NDb & Lb & Ib).
+    destruct (ssx_loop E eqb sa sb k sa sb t0) as [[[x1 x2] t2]|] eqn:El; simpl in H; [|discriminate].
+    inversion H; subst; clear H.
+    destruct (ssx_loop_spec _ _ _ _ _ _ _ _ _ El) as (L1 & L2 & I1 & I2 & N1 & N2).
+    simpl. split; (split; [|split]).
+    - apply N1; auto. apply incl_refl.
+    - congruence.
+    - intros z Hz. destruct (I1 _ Hz) as [?|[? _]]; auto.
+    - apply N2; auto. apply incl_refl.
+    - congruence.
+    - intros z Hz. destruct (I2 _ Hz) as [?|[? _]]; auto.
+  Qed.
+
+  Lemma ssx_step_safe p : xstep_safe (ssx_step E eqb p).
+  Proof.
+    intros ty a b t W Va Vb. destruct ty as [| | |els k]; simpl; try exact I.
+    apply py_safe_bind; [apply get_unif_safe|]. intros [u t0] _.
+    destruct (xleb u p); [|exact I].
+    destruct a as [| | |sa]; simpl in Va; try contradiction.
+    destruct b as [| | |sb]; simpl in Vb; try contradiction.
+    destruct Va as (NDa & La & Ia). destruct Vb as (NDb & Lb & Ib).
+    apply py_safe_bind; [apply ssx_loop_safe; lia|]. intros [[x1 x2] t2] _. exact I.
+  Qed.
+
+  (* SSX: both offspring subsets are duplicate-free, of the declared size, within the declared elements *)
+  Theorem ssx_valid pr ts fresh p1 p2 t cs f t' :
+    Forall wf_type ts -> valid_sol ts p1 -> valid_sol ts p2 ->
+    ssx E P eqb pr ts fresh [p1; p2] t = Ok (cs, f, t') -> two_children_ok ts fresh p1 p2 cs f.
+  Proof. intros. eapply crossover_of_valid; eauto using ssx_step_valid. Qed.
+
+  Theorem ssx_safe pr ts fresh p1 p2 t :
+    Forall wf_type ts -> valid_sol ts p1 -> valid_sol ts p2 -> py_safe (ssx E P eqb pr ts fresh [p1; p2] t).
+  Proof. intros. apply crossover_of_safe; auto using ssx_step_safe. Qed.
+
+  (* ================================================================ combinators
+     generic over member operators that satisfy the same contract *)
+  Definition flag_ok (ps cs : list sol) : Prop :=
+    forall c, In c cs -> exists p, In p ps /\ copied_from c p.
+
+  Lemma copied_from_refl p : copied_from p p.
+  Proof. split; auto. intros _. repeat split. Qed.
+
+  Lemma copied_from_trans c m p : copied_from c m -> copied_from m p -> copied_from c p.
+  Proof.
+    intros [P1 F1] [P2 F2]. split; [congruence|]. intro Ev.
+    destruct (F1 Ev) as (A & B & C). assert (Em : evaluated m = true) by congruence.
+    destruct (F2 Em) as (A' & B' & C'). repeat split; congruence.
+  Qed.
+
+  Lemma flag_ok_trans ps ms cs : flag_ok ps ms -> flag_ok ms cs -> flag_ok ps cs.
+  Proof.
+    intros F1 F2 c Hc. destruct (F2 c Hc) as (m & Hm & Cm). destruct (F1 m Hm) as (p & Hp & Cp).
+    exists p. split; auto. eapply copied_from_trans; eauto.
+  Qed.
+
+  Section Contract.
+    Variable valid : sol -> Prop.
+
+    (* the contract of a variator of arity k and of a mutation *)
+    Definition op_ok (k : nat) (op : operator E P) : Prop :=
+      forall fresh ps t cs f t', length ps = k -> Forall valid ps -> op fresh ps t = Ok (cs, f, t') ->
+        Forall valid cs /\ flag_ok ps cs.
+    Definition mut_ok (m : mutation E P) : Prop :=
+      forall fresh p t c f t', valid p -> m fresh p t = Ok (c, f, t') -> valid c /\ copied_from c p.
+
+    Lemma map_mutate_ok m : mut_ok m ->
+      forall ps fresh t cs f t', Forall valid ps -> map_mutate E P m fresh ps t = Ok (cs, f, t') ->
+      Forall valid cs /\ flag_ok ps cs /\ length cs = length ps.
+    Proof.
+      intros M. induction ps as [|p r IH]; intros fresh t cs f t' V H; simpl in H.
+      - inversion H; subst. repeat split; auto. intros c [].
+      - inversion V as [|? ? Vp Vps]; subst.
+        destruct (m fresh p t) as [[[c f1] t1]|] eqn:Em; simpl in H; [|discriminate].
+        destruct (map_mutate E P m f1 r t1) as [[[cs' f2] t2]|] eqn:Er; simpl in H; [|discriminate].
+        inversion H; subst; clear H.
+        destruct (M _ _ _ _ _ _ Vp Em) as [Vc Cc]. destruct (IH _ _ _ _ _ Vps Er) as (Vr & Fr & Lr).
+        split; [constructor; auto|]. split; [|simpl; congruence].
+        intros x [<-|Hx]; [exists p; split; auto; now left|].
+        destruct (Fr x Hx) as (q & Hq & Cq). exists q. split; auto. now right.
+    Qed.
+
+    (* Mutation.evolve on a list *)
+    Theorem mutation_member_ok m k : mut_ok m -> op_ok k (map_mutate E P m).
+    Proof. intros M fresh ps t cs f t' _ V H. destruct (map_mutate_ok m M _ _ _ _ _ _ V H) as (A & B & _). auto. Qed.
+
+    Theorem ga_operator_ok k variation m : op_ok k variation -> mut_ok m -> op_ok k (ga_operator E P variation m).
+    Proof.
+      intros OV M fresh ps t cs f t' L V H. unfold ga_operator in H.
+      destruct (variation fresh ps t) as [[[ms f1] t1]|] eqn:Ev; simpl in H; [|discriminate].
+      destruct (OV _ _ _ _ _ _ L V Ev) as [Vm Fm].
+      destruct (map_mutate_ok m M _ _ _ _ _ _ Vm H) as (Vc & Fc & _).
+      split; auto. eapply flag_ok_trans; eauto.
+    Qed.
+
+    Theorem compound_mutation_ok ms : Forall mut_ok ms -> mut_ok (compound_mutation E P ms).
+    Proof.
+      induction ms as [|m r IH]; intros FM fresh p t c f t' V H; simpl in H.
+      - inversion H; subst. split; auto using copied_from_refl.
+      - inversion FM as [|? ? Mm Mr]; subst.
+        destruct (m fresh p t) as [[[c1 f1] t1]|] eqn:Em; simpl in H; [|discriminate].
+        destruct (Mm _ _ _ _ _ _ V Em) as [V1 C1].
+        destruct (IH Mr _ _ _ _ _ _ V1 H) as [V2 C2]. split; auto. eapply copied_from_trans; eauto.
+    Qed.
+
+    Lemma map_each_ok op : op_ok 1 op ->
+      forall ps fresh t cs f t', Forall valid ps -> map_each E P op fresh ps t = Ok (cs, f, t') ->
+      Forall valid cs /\ flag_ok ps cs.
+    Proof.
+      intros O. induction ps as [|p r IH]; intros fresh t cs f t' V H; simpl in H.
+      - inversion H; subst. split; auto. intros c [].
+      - inversion V as [|? ? Vp Vps]; subst.
+        destruct (op fresh [p] t) as [[[c f1] t1]|] eqn:Eo; simpl in H; [|discriminate].
+        destruct (map_each E P op f1 r t1) as [[[cs' f2] t2]|] eqn:Er; simpl in H; [|discriminate].
+        inversion H; subst; clear H.
+        destruct (O fresh [p] _ _ _ _ eq_refl (Forall_cons _ Vp (Forall_nil _)) Eo) as [Vc Fc].
+        destruct (IH _ _ _ _ _ Vps Er) as [Vr Fr].
+        split; [apply Forall_app; auto|].
+        intros x Hx. apply in_app_or in Hx. destruct Hx as [Hx|Hx].
+        + destruct (Fc x Hx) as (q & [Eq|[]] & Cq). subst q. exists p. split; auto. now left.
+        + destruct (Fr x Hx) as (q & Hq & Cq). exists q. split; auto. now right.
+    Qed.
+
+    Lemma flag_ok_refl ps : flag_ok ps ps.
+    Proof. intros c Hc. exists c. split; auto using copied_from_refl. Qed.
+
+    (* CompoundOperator with its arity-matching rules: valid in -> valid out, flags, for any
+       number of incoming parents (an arity mismatch is the explicit error EArity) *)
+    Theorem compound_operator_ok vs : Forall (fun v => op_ok (m_arity v) (m_evolve v)) vs ->
+      forall fresh ps t cs f t', Forall valid ps -> compound_operator E P vs fresh ps t = Ok (cs, f, t') ->
+      Forall valid cs /\ flag_ok ps cs.
+    Proof.
+      induction vs as [|v r IH]; intros FV fresh ps t cs f t' V H; cbn [compound_operator] in H.
+      - inversion H; subst. split; auto using flag_ok_refl.
+      - inversion FV as [|? ? H1 H2]; subst.
+        destruct (Nat.eqb (m_arity v) (length ps)) eqn:Ea.
+        + apply Nat.eqb_eq in Ea.
+          destruct (m_evolve v fresh ps t) as [[[o f1] t1]|] eqn:Eo; cbn [bind] in H; [|discriminate].
+          destruct (H1 _ _ _ _ _ _ (eq_sym Ea) V Eo) as [Vo Fo].
+          destruct (IH H2 _ _ _ _ _ _ Vo H) as [Vc Fc]. split; auto. eapply flag_ok_trans; eauto.
+        + destruct (Nat.eqb (m_arity v) 1 && Nat.leb 1 (length ps)) eqn:Eb; [|discriminate].
+          apply andb_true_iff in Eb. destruct Eb as [Eb _]. apply Nat.eqb_eq in Eb.
+          destruct (map_each E P (m_evolve v) fresh ps t) as [[[o f1] t1]|] eqn:Eo; cbn [bind] in H; [|discriminate].
+          rewrite Eb in H1.
+          destruct (map_each_ok _ H1 _ _ _ _ _ _ V Eo) as [Vo Fo].
+          destruct (IH H2 _ _ _ _ _ _ Vo H) as [Vc Fc]. split; auto. eapply flag_ok_trans; eauto.
+    Qed.
+
+    (* Multimethod: the selected member's guarantees; the next selection is a valid index *)
+    Theorem multimethod_ok vs next : Forall (fun v => op_ok (m_arity v) (m_evolve v)) vs ->
+      forall fresh ps t cs nx f t' v, nth_error vs next = Some v -> length ps = m_arity v -> Forall valid ps ->
+      multimethod E P vs next fresh ps t = Ok (cs, nx, f, t') ->
+      Forall valid cs /\ flag_ok ps cs /\ (nx < length vs)%nat.
+    Proof.
+      intros FV fresh ps t cs nx f t' v Hv L V H. unfold multimethod in H.
+      unfold nth_res in H. rewrite Hv in H. simpl in H.
+      destruct (m_evolve v fresh ps t) as [[[o f1] t1]|] eqn:Eo; simpl in H; [|discriminate].
+      destruct (get_idx (length vs) t1) as [[n2 t2]|] eqn:Eg; simpl in H; [|discriminate].
+      inversion H; subst; clear H. apply get_idx_ok in Eg. destruct Eg as [Ln _].
+      rewrite Forall_forall in FV. apply nth_error_In in Hv.
+      destruct (FV v Hv _ _ _ _ _ _ L V Eo) as [A B]. auto.
+    Qed.
+  End Contract.
+
+  (* the shipped discrete operators satisfy the contract (valid := valid for the declared types) *)
+  Lemma mutation_of_mut_ok step ts : step_valid step -> Forall wf_type ts ->
+    mut_ok (valid_sol ts) (mutation_of E P step ts).
+  Proof. intros SV WF fresh p t c f t' V H. destruct (mutation_of_valid step ts SV _ _ _ _ _ _ WF V H) as (A & B & _). auto. Qed.
+
+  Lemma two_children_contract ts fresh p1 p2 cs f :
+    two_children_ok ts fresh p1 p2 cs f -> Forall (valid_sol ts) cs /\ flag_ok [p1; p2] cs.
+  Proof.
+    intros (c1 & c2 & -> & V1 & V2 & C1 & C2 & _). split; [repeat constructor; auto|].
+    intros c [<-|[<-|[]]]; [exists p1|exists p2]; split; simpl; auto.
+  Qed.
+
+  Lemma crossover_of_op_ok step ts : xstep_valid step -> Forall wf_type ts ->
+    op_ok (valid_sol ts) 2 (crossover_of E P step ts).
+  Proof.
+    intros SV WF fresh ps t cs f t' L V H.
+    destruct ps as [|p1 [|p2 [|? ?]]]; simpl in L; try discriminate.
+    inversion V as [|? ? V1 Vr]; subst. inversion Vr as [|? ? V2 _]; subst.
+    apply two_children_contract with (fresh := fresh) (f := f). eapply crossover_of_valid; eauto.
+  Qed.
+
+  Lemma guarded_crossover_of_op_ok pr step ts : xstep_valid step -> Forall wf_type ts ->
+    op_ok (valid_sol ts) 2 (guarded_crossover_of E P pr step ts).
+  Proof.
+    intros SV WF fresh ps t cs f t' L V H.
+    destruct ps as [|p1 [|p2 [|? ?]]]; simpl in L; try discriminate.
+    inversion V as [|? ? V1 Vr]; subst. inversion Vr as [|? ? V2 _]; subst.
+    apply two_children_contract with (fresh := fresh) (f := f). eapply guarded_crossover_of_valid; eauto.
+  Qed.
+
+  (* ================================================================ symmetry
+     exchanging the parents under the same tape exchanges the offspring (so the multiset of
+     offspring values is the same) — HUX, SSX, PMX, for problems of any size *)
+  Definition oswap (o : option (var * var)) : option (var * var) :=
+    match o with Some (a, b) => Some (b, a) | None => None end.
+
+  Definition xstep_sym (step : xstep E) : Prop :=
+    forall ty a b t o t1, wf_type ty -> valid_var ty a -> valid_var ty b ->
+      step ty a b t = Ok (o, t1) -> step ty b a t = Ok (oswap o, t1).
+
+  Lemma cross_loop_sym step ts : xstep_sym step ->
+    forall v1 v2 t r1 r2 w t', Forall wf_type ts -> valid_vars ts v1 -> valid_vars ts v2 ->
+    cross_loop E step ts v1 v2 t = Ok (r1, r2, w, t') ->
+    cross_loop E step ts v2 v1 t = Ok (r2, r1, w, t').
+  Proof.
+    intros SS. induction ts as [|ty ts IH]; intros v1 v2 t r1 r2 w t' WF V1 V2 H.
+    - simpl in H. inversion V1; inversion V2; subst. inversion H; subst. reflexivity.
+    - inversion V1 as [|? a ? ar Ha Har]; subst. inversion V2 as [|? b ? br Hb Hbr]; subst.
+      inversion WF as [|? ? Wty Wts]; subst. simpl in H. simpl.
+      destruct (step ty a b t) as [[o t1]|] eqn:Es; simpl in H; [|discriminate].
+      rewrite (SS _ _ _ _ _ _ Wty Ha Hb Es). simpl.
+      destruct (cross_loop E step ts ar br t1) as [[[[s1 s2] w2] t2]|] eqn:El; simpl in H; [|discriminate].
+      rewrite (IH _ _ _ _ _ _ _ Wts Har Hbr El). simpl.
+      inversion H; subst. destruct o as [[a' b']|]; reflexivity.
+  Qed.
+
+  Definition exchanged (cs ds : list sol) : Prop :=
+    exists c1 c2 d1 d2, cs = [c1; c2] /\ ds = [d1; d2] /\
+      vars d1 = vars c2 /\ vars d2 = vars c1 /\ evaluated d1 = evaluated c2 /\ evaluated d2 = evaluated c1.
+
+  Theorem crossover_of_sym step ts : xstep_sym step ->
+    forall fresh p1 p2 t cs f t', Forall wf_type ts -> valid_sol ts p1 -> valid_sol ts p2 ->
+    crossover_of E P step ts fresh [p1; p2] t = Ok (cs, f, t') ->
+    exists ds, crossover_of E P step ts fresh [p2; p1] t = Ok (ds, f, t') /\ exchanged cs ds.
+  Proof.
+    intros SS fresh p1 p2 t cs f t' WF V1 V2 H. unfold crossover_of in *. simpl in *.
+    destruct (cross_loop E step ts (vars p1) (vars p2) t) as [[[[r1 r2] w] t1]|] eqn:El; simpl in H; [|discriminate].
+    rewrite (cross_loop_sym step ts SS _ _ _ _ _ _ _ WF V1 V2 El). simpl.
+    inversion H; subst. eexists. split; [reflexivity|].
+    eexists _, _, _, _. repeat split; reflexivity.
+  Qed.
+
+  Theorem guarded_crossover_of_sym pr step ts : xstep_sym step ->
+    forall fresh p1 p2 t cs f t', Forall wf_type ts -> valid_sol ts p1 -> valid_sol ts p2 ->
+    guarded_crossover_of E P pr step ts fresh [p1; p2] t = Ok (cs, f, t') ->
+    exists ds, guarded_crossover_of E P pr step ts fresh [p2; p1] t = Ok (ds, f, t') /\ exchanged cs ds.
+  Proof.
+    intros SS fresh p1 p2 t cs f t' WF V1 V2 H. unfold guarded_crossover_of in *. simpl in *.
+    destruct (get_unif t) as [[u t0]|]; simpl in *; [|discriminate].
+    destruct (xleb u pr).
+    - destruct (cross_loop E step ts (vars p1) (vars p2) t0) as [[[[r1 r2] w] t1]|] eqn:El; simpl in H; [|discriminate].
+      rewrite (cross_loop_sym step ts SS _ _ _ _ _ _ _ WF V1 V2 El). simpl.
+      inversion H; subst. eexists. split; [reflexivity|].
+      eexists _, _, _, _. repeat split; reflexivity.
+    - inversion H; subst. eexists. split; [reflexivity|].
+      eexists _, _, _, _. repeat split; reflexivity.
+  Qed.
+
+  (* exchanged offspring = the same multiset of offspring values *)
+  Lemma exchanged_multiset cs ds : exchanged cs ds -> Permutation (map vars cs) (map vars ds).
+  Proof.
+    intros (c1 & c2 & d1 & d2 & -> & -> & A & B & _). simpl. rewrite A, B. apply perm_swap.
+  Qed.
+
+  (* ---- HUX *)
+  Lemma hux_bits_sym : forall n b1 b2 t r1 r2 w t',
+    hux_bits n b1 b2 t = Ok (r1, r2, w, t') -> hux_bits n b2 b1 t = Ok (r2, r1, w, t').
+  Proof.
+    induction n as [|n IH]; intros b1 b2 t r1 r2 w t' H; simpl in *.
+    - now inversion H.
+    - destruct b1 as [|x s1]; [discriminate|]. destruct b2 as [|y s2]; [discriminate|].
+      replace (Bool.eqb y x) with (Bool.eqb x y) by (destruct x, y; reflexivity).
+      destruct (negb (Bool.eqb x y)).
+      + destruct (get_bit t) as [[c t1]|]; simpl in *; [|discriminate].
+        destruct (hux_bits n s1 s2 t1) as [[[[q1 q2] w'] t2]|] eqn:El; simpl in H; [|discriminate].
+        rewrite (IH _ _ _ _ _ _ _ El). simpl. destruct c; now inversion H.
+      + destruct (hux_bits n s1 s2 t) as [[[[q1 q2] w'] t2]|] eqn:El; simpl in H; [|discriminate].
+        rewrite (IH _ _ _ _ _ _ _ El). simpl. now inversion H.
+  Qed.
+
+  Lemma hux_step_sym : xstep_sym (hux_step E).
+  Proof.
+    intros ty a b t o t1 W Va Vb H. destruct ty; simpl in *; try (inversion H; subst; reflexivity).
+    destruct a as [|b1| |]; simpl in Va; try contradiction.
+    destruct b as [|b2| |]; simpl in Vb; try contradiction.
+    destruct (hux_bits nbits b1 b2 t) as [[[[r1 r2] w] t2]|] eqn:Eb; simpl in H; [|discriminate].
+    rewrite (hux_bits_sym _ _ _ _ _ _ _ _ Eb). simpl. inversion H; subst. destruct w; reflexivity.
+  Qed.
+
+  Theorem hux_symmetric pr ts fresh p1 p2 t cs f t' :
+    Forall wf_type ts -> valid_sol ts p1 -> valid_sol ts p2 ->
+    hux E P pr ts fresh [p1; p2] t = Ok (cs, f, t') ->
+    exists ds, hux E P pr ts fresh [p2; p1] t = Ok (ds, f, t') /\ exchanged cs ds.
+  Proof. intros. eapply guarded_crossover_of_sym; eauto using hux_step_sym. Qed.
+
+  (* ---- SSX *)
+  Lemma ssx_loop_sym s1 s2 : forall size l1 l2 t r1 r2 t',
+    ssx_loop E eqb s1 s2 size l1 l2 t = Ok (r1, r2, t') ->
+    ssx_loop E eqb s2 s1 size l2 l1 t = Ok (r2, r1, t').
+  Proof.
+    induction size as [|k IH]; intros l1 l2 t r1 r2 t' H; simpl in *.
+    - now inversion H.
+    - destruct l1 as [|a q1]; [discriminate|]. destruct l2 as [|b q2]; [discriminate|].
+      rewrite (andb_comm (negb (mem a s2))).
+      destruct (negb (mem b s1) && negb (mem a s2)).
+      + destruct (get_unif t) as [[u t0]|]; simpl in *; [|discriminate].
+        destruct (ssx_loop E eqb s1 s2 k q1 q2 t0) as [[[x1 x2] t2]|] eqn:El; simpl in H; [|discriminate].
+        rewrite (IH _ _ _ _ _ _ El). simpl. inversion H; subst. destruct (xltb u half); reflexivity.
+      + simpl in *.
+        destruct (ssx_loop E eqb s1 s2 k q1 q2 t) as [[[x1 x2] t2]|] eqn:El; simpl in H; [|discriminate].
+        rewrite (IH _ _ _ _ _ _ El). simpl. now inversion H.
+  Qed.
+
+  Lemma ssx_step_sym p : xstep_sym (ssx_step E eqb p).
+  Proof.
+    intros ty a b t o t1 W Va Vb H. destruct ty as [| | |els k]; simpl in *; try (inversion H; subst; reflexivity).
+    destruct (get_unif t) as [[u t0]|]; simpl in *; [|discriminate].
+    destruct (xleb u p); [|inversion H; subst; reflexivity].
+    destruct a as [| | |sa]; simpl in Va; try contradiction.
+    destruct b as [| | |sb]; simpl in Vb; try contradiction.
+    destruct (ssx_loop E eqb sa sb k sa sb t0) as [[[x1 x2] t2]|] eqn:El; simpl in H; [|discriminate].
+    rewrite (ssx_loop_sym _ _ _ _ _ _ _ _ _ El). simpl. now inversion H.
+  Qed.
+
+  Theorem ssx_symmetric pr ts fresh p1 p2 t cs f t' :
+    Forall wf_type ts -> valid_sol ts p1 -> valid_sol ts p2 ->
+    ssx E P eqb pr ts fresh [p1; p2] t = Ok (cs, f, t') ->
+    exists ds, ssx E P eqb pr ts fresh [p2; p1] t = Ok (ds, f, t') /\ exchanged cs ds.
+  Proof. intros. eapply crossover_of_sym; eauto using ssx_step_sym. Qed.
+
+  (* ---- PMX *)
+  Lemma pmx_maps_sym p1 p2 : forall cnt i r1 r2 m1 m2,
+    pmx_maps E p1 p2 i cnt r1 r2 = Ok (m1, m2) -> pmx_maps E p2 p1 i cnt r2 r1 = Ok (m2, m1).
+  Proof.
+    induction cnt as [|c IH]; intros i r1 r2 m1 m2 H; simpl in *.
+    - now inversion H.
+    - destruct (nth_res p1 i) as [a|]; simpl in *; [|discriminate].
+      destruct (nth_res p2 i) as [b|]; simpl in *; [|discriminate]. now apply IH.
+  Qed.
+
+  Lemma pmx_fill_sym p1 p2 cp1 cp2 n r1 r2 : forall cnt i o1 o2,
+    pmx_fill E eqb p1 p2 cp1 cp2 n r1 r2 i cnt = Ok (o1, o2) ->
+    pmx_fill E eqb p2 p1 cp1 cp2 n r2 r1 i cnt = Ok (o2, o1).
+  Proof.
+    induction cnt as [|c IH]; intros i o1 o2 H; cbn [pmx_fill] in *.
+    - now inversion H.
+    - destruct (nth_res p1 i) as [a|]; cbn [bind] in *; [|discriminate].
+      destruct (nth_res p2 i) as [b|]; cbn [bind] in *; [|discriminate].
+      destruct (Nat.ltb i cp1 || Nat.ltb cp2 i).
+      + destruct (chase E eqb (S n) r1 a) as [n1|] eqn:E1; cbn [bind] in *; [|discriminate].
+        destruct (chase E eqb (S n) r2 b) as [n2|] eqn:E2; cbn [bind] in *; [|discriminate].
+        destruct (pmx_fill E eqb p1 p2 cp1 cp2 n r1 r2 (S i) c) as [[x1 x2]|] eqn:Ef; cbn [bind] in *; [|discriminate].
+        rewrite (IH _ _ _ Ef). cbn [bind]. now inversion H.
+      + cbn [bind] in *.
+        destruct (pmx_fill E eqb p1 p2 cp1 cp2 n r1 r2 (S i) c) as [[x1 x2]|] eqn:Ef; cbn [bind] in *; [|discriminate].
+        rewrite (IH _ _ _ Ef). cbn [bind]. now inversion H.
+  Qed.
+
+  Lemma pmx_lists_sym p1 p2 t o1 o2 t' : length p1 = length p2 ->
+    pmx_lists E eqb p1 p2 t = Ok (o1, o2, t') -> pmx_lists E eqb p2 p1 t = Ok (o2, o1, t').
+  Proof.
+    intros L H. unfold pmx_lists, pmx_cut in *. rewrite <- L.
+    destruct (draw_two (length p1) t) as [[[c1 c2] t1]|]; cbn [bind] in *; [|discriminate].
+    set (cp1 := if Nat.ltb c2 c1 then c2 else c1) in *. set (cp2 := if Nat.ltb c2 c1 then c1 else c2) in *.
+    destruct (pmx_maps E p1 p2 cp1 (S cp2 - cp1) [] []) as [[m1 m2]|] eqn:Em; cbn [bind] in *; [|discriminate].
+    rewrite (pmx_maps_sym _ _ _ _ _ _ _ _ Em). cbn [bind].
+    destruct (pmx_fill E eqb p1 p2 cp1 cp2 (length p1) m1 m2 0 (length p1)) as [[x1 x2]|] eqn:Ef; cbn [bind] in *; [|discriminate].
+    rewrite (pmx_fill_sym _ _ _ _ _ _ _ _ _ _ _ Ef). cbn [bind]. now inversion H.
+  Qed.
+
+  Lemma pmx_step_sym p : xstep_sym (pmx_step E eqb p).
+  Proof.
+    intros ty a b t o t1 W Va Vb H. destruct ty as [| |els|]; simpl in *; try (inversion H; subst; reflexivity).
+    destruct (get_unif t) as [[u t0]|]; simpl in *; [|discriminate].
+    destruct (xleb u p); [|inversion H; subst; reflexivity].
+    destruct a as [| |pa|]; simpl in Va; try contradiction.
+    destruct b as [| |pb|]; simpl in Vb; try contradiction.
+    assert (L : length pa = length pb).
+    { apply Permutation_length in Va. apply Permutation_length in Vb. congruence. }
+    destruct (pmx_lists E eqb pa pb t0) as [[[x1 x2] t2]|] eqn:El; cbn [bind] in H; [|discriminate].
+    rewrite (pmx_lists_sym _ _ _ _ _ _ L El). cbn [bind]. now inversion H.
+  Qed.
+
+  Theorem pmx_symmetric pr ts fresh p1 p2 t cs f t' :
+    Forall wf_type ts -> valid_sol ts p1 -> valid_sol ts p2 ->
+    pmx E P eqb pr ts fresh [p1; p2] t = Ok (cs, f, t') ->
+    exists ds, pmx E P eqb pr ts fresh [p2; p1] t = Ok (ds, f, t') /\ exchanged cs ds.
+  Proof. intros. eapply crossover_of_sym; eauto using pmx_step_sym. Qed.
 End OpsProofs.
